@@ -82,7 +82,9 @@ TEXTS = {
     "C19": {
         "text": "Theorems (Properties/C19.v, about the Gallina transcription): default modifier = children(HP:1) minus HP:118, default "
                 "categories = those plus children(HP:118), is_modifier / categories characterised by membership in {self} + ancestors, "
-                "categories ascending, build_with_defaults errs iff a root is missing; root ids regenerated from the source. Tied to the crate "
+                "categories ascending, build_with_defaults errs iff a root is missing; root ids regenerated from the source; for every "
+                "Builder-built ontology 'ancestors' is the transitive closure of the is_a links (C19_builder_is_modifier, "
+                "C19_builder_categories). Tied to the crate "
                 "by correspondence and by evaluating spec_C19 on the crate's observations.",
         "design_ref": "DESIGN.md §4 C19", "note": NOTE_COMMON, "technique": TECH,
     },
@@ -248,8 +250,8 @@ TEXTS = {
                 "C17_distances_follow_method: for single / complete / average the distance of every other live node to the new cluster is "
                 "min / max / mean of its distances to the two merged nodes and all other distances are kept; C17_union_distances: for union the "
                 "new cluster's set is the union of the two merged sets and the distance of every other live node to it is the user's distance "
-                "between that union and the node's set (set_to_last yields the new set paired with every live set, in order). Not a theorem: "
-                "that the initial matrix holds the user distance of every pair (executed; that each pair is asked once is "
+                "between that union and the node's set (set_to_last yields the new set paired with every live set, in order); "
+                "C17_initial_matrix: the run starts from the user's distance of every pair of input sets (each pair asked once: "
                 "C17_initial_pairs_each_once). The replay additionally checks per merge that no live pair is closer, the reported distance, and the "
                 "method-specific update (min / max / mean / user distance on the union); the transcription is diffed bit for bit.",
         "design_ref": "DESIGN.md §4 C17, §9",
